@@ -154,7 +154,8 @@ def minFull (args : List Sexp) : Option String := do
       | none => (id, [])
     let m0 := transformM Generated.precTable Generated.spacing orc el o m
     let m1 := renModule R m0
-    pure (encStr ((if modOK R m0 then "OK 1" else "OK 0") ++ (if hoistOK w m1 then " 1\n" else " 0\n") ++
+    let nodup : Bool := !o.annotations.any || decide (defNames (beforeAnnotationsM o m).body).Nodup
+    pure (encStr ((if modOK R m0 then "OK 1" else "OK 0") ++ (if hoistOK w m1 then " 1" else " 0") ++ (if nodup then " 1\n" else " 0\n") ++
       Driver.Printer.printModule (hoistModule w m1)))
   | _ => none
 
